@@ -21,8 +21,9 @@ pub enum Case {
     H2S { msg: Bytes, dst: Bytes },
     MapMsgs { msgs: Vec<Bytes>, blind_api: bool },
     Gens { count: usize, api: Option<Bytes> },
-    Sign { sk: Scalar, header: Option<Bytes>, msgs: Vec<Bytes> },
-    BlindSign { sk: Scalar, cwp: Bytes, header: Option<Bytes>, msgs: Vec<Bytes> },
+    /// `pk_of`: the public key handed to the signer is the one of this other secret (None = matching pair)
+    Sign { sk: Scalar, pk_of: Option<Scalar>, header: Option<Bytes>, msgs: Vec<Bytes> },
+    BlindSign { sk: Scalar, pk_of: Option<Scalar>, cwp: Bytes, header: Option<Bytes>, msgs: Vec<Bytes> },
     Verify { pk: Bytes, sig: Bytes, header: Option<Bytes>, msgs: Vec<Bytes> },
     ProofVerify { pk: Bytes, proof: Bytes, header: Option<Bytes>, ph: Option<Bytes>, dm: Vec<Bytes>, di: Vec<usize> },
     VerifyBlindSign { pk: Bytes, sig: Bytes, header: Option<Bytes>, msgs: Vec<Bytes>, cm: Vec<Bytes>, blind: Scalar },
@@ -70,8 +71,8 @@ fn run_ref(s: SuiteId, c: &Case) -> Out {
             rf::messages_to_scalars(s, msgs, &api).map(|v| v.iter().flat_map(|x| rf::scalar_be(x)).collect()).map_err(|_| ())
         }
         Case::Gens { count, api } => Ok(rf::create_generators(s, *count, api.as_deref().unwrap_or(&[])).iter().flat_map(|g| rf::g1_c(g)).collect()),
-        Case::Sign { sk, header, msgs } => rf::sign(s, sk, &rf::sk_to_pk(sk), &h(header), msgs).map(|x| x.to_vec()).map_err(|_| ()),
-        Case::BlindSign { sk, cwp, header, msgs } => rf::blind_sign(s, sk, &rf::sk_to_pk(sk), cwp, &h(header), msgs).map(|x| x.to_vec()).map_err(|_| ()),
+        Case::Sign { sk, pk_of, header, msgs } => rf::sign(s, sk, &rf::sk_to_pk(pk_of.as_ref().unwrap_or(sk)), &h(header), msgs).map(|x| x.to_vec()).map_err(|_| ()),
+        Case::BlindSign { sk, pk_of, cwp, header, msgs } => rf::blind_sign(s, sk, &rf::sk_to_pk(pk_of.as_ref().unwrap_or(sk)), cwp, &h(header), msgs).map(|x| x.to_vec()).map_err(|_| ()),
         Case::Verify { pk, sig, header, msgs } => if rf::verify(s, pk, sig, &h(header), msgs) { Ok(vec![]) } else { Err(()) },
         Case::ProofVerify { pk, proof, header, ph, dm, di } => if rf::proof_verify(s, pk, proof, &h(header), &h(ph), dm, di) { Ok(vec![]) } else { Err(()) },
         Case::VerifyBlindSign { pk, sig, header, msgs, cm, blind } => if rf::verify_blind_sign(s, pk, sig, &h(header), msgs, cm, blind) { Ok(vec![]) } else { Err(()) },
@@ -111,12 +112,18 @@ fn run_lib<X: Sx>(ctx: &Ctx, c: &Case, sig: &str) -> (Outcome, Out) {
                 }
                 Ok(g.values.iter().flat_map(|p| p.to_affine().to_compressed()).collect())
             }
-            Case::Sign { sk, header, msgs } => {
-                let (sk, pk) = key_from_scalar(*sk);
+            Case::Sign { sk, pk_of, header, msgs } => {
+                let (sk, mut pk) = key_from_scalar(*sk);
+                if let Some(o2) = pk_of {
+                    pk = key_from_scalar(*o2).1;
+                }
                 Sig::<X>::sign(Some(msgs), &sk, &pk, o(header)).map(|s| s.to_bytes().to_vec()).map_err(e)
             }
-            Case::BlindSign { sk, cwp, header, msgs } => {
-                let (sk, pk) = key_from_scalar(*sk);
+            Case::BlindSign { sk, pk_of, cwp, header, msgs } => {
+                let (sk, mut pk) = key_from_scalar(*sk);
+                if let Some(o2) = pk_of {
+                    pk = key_from_scalar(*o2).1;
+                }
                 BSig::<X>::blind_sign(&sk, &pk, if cwp.is_empty() { None } else { Some(cwp) }, o(header), Some(msgs)).map(|s| s.to_bytes().to_vec()).map_err(e)
             }
             Case::Verify { pk, sig, header, msgs } => {
@@ -236,7 +243,7 @@ fn det_cases<X: Sx>(ctx: &Ctx, r: &mut impl RngCore, part: usize) -> Vec<(String
                         _ => Some(rand_bytes(r, 65536)),
                     };
                     v.push((format!("L{l}/hdr{}", header.as_ref().map(|h| h.len() as i64).unwrap_or(-1)),
-                            Case::Sign { sk: crate::c04::rand_scalar(r), header, msgs: gen_messages(r, l, k + hc) }));
+                            Case::Sign { sk: crate::c04::rand_scalar(r), pk_of: if (k + hc) % 3 == 2 { Some(crate::c04::rand_scalar(r)) } else { None }, header, msgs: gen_messages(r, l, k + hc) }));
                 }
             }
         }
@@ -351,10 +358,15 @@ fn decision_cases<X: Sx>(ctx: &Ctx, r: &mut impl RngCore, l: usize, m: usize) ->
     // --- blind_sign (commitment validation) : byte equality when both accept
     for (src, cw) in [("lib", &lcwp), ("ref", &rcwp)] {
         for (mn, cb) in mutate(r, cw, &[], &[48]) {
-            v.push((format!("{mn}/{src}-commitment"), Case::BlindSign { sk, cwp: cb, header: header.clone(), msgs: msgs.clone() }));
+            v.push((format!("{mn}/{src}-commitment"), Case::BlindSign { sk, pk_of: None, cwp: cb, header: header.clone(), msgs: msgs.clone() }));
         }
     }
-    v.push(("no-commitment".into(), Case::BlindSign { sk, cwp: vec![], header: header.clone(), msgs: msgs.clone() }));
+    v.push(("no-commitment".into(), Case::BlindSign { sk, pk_of: None, cwp: vec![], header: header.clone(), msgs: msgs.clone() }));
+    // the signer is handed a public key that does not belong to its secret key (the drafts put the SUPPLIED key into the domain)
+    let other = crate::c04::rand_scalar(r);
+    v.push(("mismatched-pk/no-commitment".into(), Case::BlindSign { sk, pk_of: Some(other), cwp: vec![], header: header.clone(), msgs: msgs.clone() }));
+    v.push(("mismatched-pk/lib-commitment".into(), Case::BlindSign { sk, pk_of: Some(other), cwp: lcwp.clone(), header: header.clone(), msgs: msgs.clone() }));
+    v.push(("mismatched-pk/sign".into(), Case::Sign { sk, pk_of: Some(other), header: header.clone(), msgs: msgs.clone() }));
     // --- verify_blind_sign
     for (src, bs, bl) in [("lib", &lbsig, lblind), ("ref", &rbsig, rblind)] {
         for (mn, sb) in mutate(r, bs, &[0], &[48]) {
